@@ -30,7 +30,7 @@ ANCHORS = [
     "acnportal.acnsim.network.current:Current.__sub__",
     "acnportal.acnsim.network.charging_network:ChargingNetwork.is_feasible",
 ]
-REQUIRED = ["accepted_schedules_judged", "boundary_points", "vertex_points", "structure_walks", "site:caltech", "site:caltech-via-deprecated-alias", "site:jpl", "site:office001",
+REQUIRED = ["accepted_schedules_judged", "narrow_typed_whole_ampere_schedules", "narrow_typed_schedules_accepted", "boundary_points", "vertex_points", "structure_walks", "site:caltech", "site:caltech-via-deprecated-alias", "site:jpl", "site:office001",
             "evse:basic", "evse:real", "cap:default", "cap:scaled", "cap:zero", "sim_columns_judged", "linear_mode_points", "multi_period_matrices", "multi_period_accepted", "long_plans_with_one_overloading_column", "networks_printed_compared_hashed_before_use", "same_array_object_checked_again_after_in_place_edit", "site_factory_called_with_positional_arguments", "transformer_power_within_1pct_of_rating",
             "panel_or_pod_binding"]
 BUDGET_S = {"quick": 240, "thorough": 3000}
@@ -377,6 +377,34 @@ def run_case(case, obs):
                         judge_schedule(obs, net, W, ids, ang, [float(x) for x in c], dict(wit, periods=Tl, column=p_, linear=lin),
                                        "plan of %d periods, idle except period %d" % (Tl, p_))
                 S[:, p_] = 0.0
+    # ---- whole-ampere schedules as they come out of a table: narrow numeric types (8/16-bit integers, 16/32-bit floats), uniform
+    # levels across all stations, across one phase group, random whole amperes - most of them overloads; whatever the network
+    # admits is judged like any accepted schedule (a product evaluated in the schedule's own type must not wrap or saturate)
+    top = int(min(32, maxr.max()))
+    for q in range(10):
+        dt = rng.choice([np.uint8, np.int8, np.uint16, np.int16, np.int32, np.int64, np.float32, np.float16, np.uint8, np.int8])
+        r_ = rng.choice(["uniform", "uniform", "group", "random"])
+        if r_ == "uniform":
+            v = np.full(n, rng.randint(1, top))
+        elif r_ == "group":
+            g_ = rng.choice([30, -90, 150])
+            v = np.where(A == g_, rng.randint(1, top), rng.choice([0, 0, 1]))
+        else:
+            v = nrng.integers(0, top + 1, n)
+        v = np.minimum(v, np.floor(maxr)).astype(int)
+        Tn = rng.choice([1, 1, 3])
+        S = np.stack([v] + [np.zeros(n, dtype=int)] * (Tn - 1), axis=1).astype(dt)
+        for lin in (False, True):
+            obs.ev("narrow_typed_whole_ampere_schedules")
+            try:
+                acc = bool(net.is_feasible(S, linear=lin))
+            except Exception as e:
+                obs.violate("is_feasible_raised", f"is_feasible raised {type(e).__name__}: {e} on a {S.shape} {S.dtype} schedule (linear={lin})", **wit)
+                continue
+            if acc:
+                obs.ev("narrow_typed_schedules_accepted")
+                judge_schedule(obs, net, W, ids, ang, [float(x) for x in v], dict(wit, dtype=str(S.dtype), linear=lin),
+                               "whole-ampere schedule of dtype %s" % S.dtype)
     # ---- recorded rates of a real simulation on the site
     if case.get("sim"):
         sim_columns(case, obs, site, basic, caps, W, rng, wit)
